@@ -62,7 +62,7 @@ def rec_exact(seed):
     h, w = rng.randint(7, 15), rng.randint(7, 15)
     y, x = np.mgrid[:h, :w]
     if name == 'quadratic_exact':
-        variant = rng.choice(['plain', 'plain', 'search_box', 'six_points'])
+        variant = rng.choice(['plain', 'plain', 'search_box', 'six_points', 'half_guess'])
         x0, y0 = rng.uniform(2.6, w - 3.6), rng.uniform(2.6, h - 3.6)
         if variant == 'search_box':          # the vertex near the lower-left corner: the search box around the guess is clipped there
             x0, y0 = rng.uniform(1.1, 2.4), rng.uniform(1.1, h - 3.6)
@@ -79,7 +79,17 @@ def rec_exact(seed):
             if rng.random() < 0.5:
                 x0, y0 = float(rng.randint(3, w - 4)), float(rng.randint(1, 2))
             data = 80.0 * np.exp(-0.5 * (((x - x0) / 1.6) ** 2 + ((y - y0) / 1.6) ** 2)) + 1.0
-        if variant == 'search_box':
+        if variant == 'half_guess':
+            # guesses exactly half way between two pixels (ties round away from zero): next to the lower / left edge the guess 0.5 means
+            # pixel 1, whose 3 x 3 neighbourhood is complete
+            x0, y0 = rng.uniform(0.7, 1.3), rng.uniform(2.6, h - 3.6)
+            gx, gy = 0.5, round(y0) - 0.5
+            if rng.random() < 0.5:
+                x0, y0 = rng.uniform(2.6, w - 3.6), rng.uniform(0.7, 1.3)
+                gx, gy = round(x0) - 0.5, 0.5
+            data = 100.0 - a * (x - x0) ** 2 - b * (y - y0) ** 2 - c * (x - x0) * (y - y0)
+            res = call(lambda d, mask=None: fq(d, xpeak=gx, ypeak=gy, fit_boxsize=3, mask=mask), data)
+        elif variant == 'search_box':
             fn = lambda d, mask=None: fq(d, xpeak=int(round(x0)) + rng.choice([-1, 0, 1]), ypeak=int(round(y0)) + rng.choice([-1, 0, 1]), fit_boxsize=3,  # noqa
                                          search_boxsize=rng.choice([3, 5]), mask=mask)
             res = call(fn, data)
@@ -126,7 +136,7 @@ def rec_pair(seed):
     if name == 'quadratic' and rng.random() < 0.5:
         # explicit fit / search boxes, also larger than the (non-square) cutout: they are clipped to it axis by axis
         h, w = rng.choice([(7, 15), (8, 13), (15, 7), (9, 9), (11, 14)])
-        qkw = {'fit_boxsize': rng.choice([5, 7, 9, 11, (5, 9), (9, 5)])}
+        qkw = {'fit_boxsize': rng.choice([5, 7, 9, 11, (5, 9), (9, 5), (5, 3), (3, 5), (7, 3)])}
         if rng.random() < 0.7:
             qkw['search_boxsize'] = rng.choice([7, 9, 11, 13, (7, 11), (11, 7)])
             qkw['xpeak'], qkw['ypeak'] = rng.randint(2, w - 3), rng.randint(2, h - 3)     # the search box around the guess decides which peak is fitted
@@ -136,6 +146,13 @@ def rec_pair(seed):
     data = np.zeros((h, w))
     for _ in range(rng.randint(1, 2)):
         data += rng.uniform(30, 100) * np.exp(-0.5 * (((x - rng.uniform(3.5, w - 4.5)) / rng.uniform(1.3, 2.2)) ** 2 + ((y - rng.uniform(3.5, h - 4.5)) / rng.uniform(1.3, 2.2)) ** 2))
+    if qkw and rng.random() < 0.5:
+        # the brightest pixel one pixel away from an edge: the fit box is clipped there and shifted back into the frame
+        ex, ey = rng.uniform(3.5, w - 4.5), rng.choice([1.0, h - 2.0]) + rng.uniform(-0.3, 0.3)
+        if rng.random() < 0.5:
+            ex, ey = rng.choice([1.0, w - 2.0]) + rng.uniform(-0.3, 0.3), rng.uniform(3.5, h - 4.5)
+        data = 90.0 * np.exp(-0.5 * (((x - ex) / 1.8) ** 2 + ((y - ey) / 1.5) ** 2))
+        qkw.pop('xpeak', None); qkw.pop('ypeak', None); qkw.pop('search_boxsize', None)
     data += np.random.default_rng(seed).uniform(0, 0.5, (h, w))
     mask = None
     if rel == 'maskedvalues' or rng.random() < 0.3:
